@@ -11,14 +11,23 @@ HARNESS_EXTRA = ["-fno-access-control"]       # the buffering limits have no pub
 CASE_START = ("case",)
 MANIFEST = dict(
     text="Lean 4 theorems over a code-shaped executable model of StreamIdentifier / Flow / Stream / StreamFollower "
-         "(generic in the connection key, reassembly = the C06 DataTracker model), tied to the code by differential "
-         "correspondence on interleaved multi-connection IPv4/IPv6 captures (callback trace, find_stream, per-flow buffer "
-         "counters) under ASan/UBSan, and a reference-connection-table oracle (Lean, executable) evaluated on the "
-         "implementation's own callback trace.",
+         "(generic in the connection key; per-flow reassembly = the C06 DataTracker model, per-flow ACK tracking = the C19 "
+         "AckTracker model, both imported with their theorems): identifier injectivity, announce_once, forget_iff / "
+         "forget_reason, memory_bound over the three limits (chunks, bytes, SACKed intervals), sacked_limit, route_correct, "
+         "flow_is_fold (per-flow state = Flow::process_packet folded over the sub-history routed to the flow, for every "
+         "interleaving), per_flow_delivery (C06's refinement theorem composed with that fold: each data callback is handed "
+         "exactly the stream prefix up to the frontier), ignore_data, callback_not_set_path, trace_refines_reference_live. "
+         "Tied to the code by differential correspondence on interleaved multi-connection IPv4/IPv6 captures (callback "
+         "trace, find_stream, per-flow buffer counters and ACK-tracker state) under ASan/UBSan, and a reference-connection-"
+         "table oracle (Lean, executable) evaluated on the implementation's own callback trace.",
     note="Trusted: Lean kernel + standard axioms; hand-written model tied by correspondence (harness/c07_follower.cpp, built "
-         "with -fno-access-control to lower the two private buffering limits); ACK tracking off in all modelled "
-         "configurations (SACKED_SEGMENTS limit unreachable); generator coverage bounds what the tie sees.",
-    technique="Lean 4 proof (invariants over packet histories, simulation between key functions) + model/impl correspondence",
+         "with -fno-access-control to lower the two private buffering limits; the SACKed-interval limit is a compile-time "
+         "constant, read from the source by the check, reported by the harness and crossed by floods of limit+1 disjoint SACK "
+         "blocks); what the application does in the new-stream callback (auto-cleanup, enable_ack_tracking per flow, use_sack, "
+         "ignore_*_data, no callback at all) is part of the modelled configuration; recovery mode is outside the model; "
+         "generator coverage bounds what the tie sees.",
+    technique="Lean 4 proof (invariants over packet histories, projection onto one connection, simulation between key "
+              "functions, composition with the C06 / C19 theorems) + model/impl correspondence",
     design="DESIGN.md §6 C07")
 
 FIN, SYN, RST, PSH, ACK = 1, 2, 4, 8, 16
@@ -614,18 +623,25 @@ def run(chk):
     for p in problems:
         if not total():
             chk.violation("proof obligation no longer checks: " + p[:1500], ["theorem-or-audit-failure", p[:4000]], nofail=True)
-    chk.cov["rule"] = ("cases = (follower configuration, <= 8 scripted TCP connections over IPv4/IPv6 with shared hosts/ports, "
-                       "interleaving, timestamps); distinct_nontrivial counts distinct (operation, implementation result) pairs")
+    chk.cov["rule"] = ("cases = (follower configuration incl. what the new-stream callback does, <= 8 scripted TCP connections over "
+                       "IPv4/IPv6 with shared hosts/ports, receiver-model ACK / SACK options incl. malformed ones, interleaving, "
+                       "timestamps) + floods crossing each of the three limits at its default; distinct_nontrivial counts "
+                       "distinct (operation, implementation result) pairs")
     chk.assumptions += [
         "addresses are modelled as big-endian naturals; std::array<uint8_t,16> comparison = numeric comparison",
         "std::map<StreamIdentifier,Stream> is an association list; cleanup_streams visits expired entries in operator< order",
-        "ACK tracking is off (default): the SACKED_SEGMENTS limit is outside the model; recovery mode and ignore_*_data are not used",
-        "every callback is installed; auto-cleanup is switched (if at all) inside the new-stream callback",
+        "what the application does to a stream happens inside the new-stream callback and is part of the configuration: auto-cleanup "
+        "off, Flow::enable_ack_tracking per flow, AckTracker::use_sack, ignore_client_data / ignore_server_data; either every "
+        "callback is installed or (nocb) no new-stream callback at all; recovery mode is never enabled",
+        "DEFAULT_MAX_SACKED_INTERVALS is a parameter of the model: the check reads the literal from src/tcp_ip/stream_follower.cpp, "
+        "the harness reports the compiled value and the oracle compares the two on every case",
+        "boost::icl::interval_set is the canonical interval list of the C19 model (validated against icl by the printed intervals)",
         "payload equality is compared through length + FNV-1a 64",
         "timestamps < 2^62 microseconds (std::chrono::microseconds is int64)",
     ]
     chk.trusted += ["correspondence harness harness/c07_follower.cpp (built with -fno-access-control to set the private "
                     "limits max_buffered_chunks_/max_buffered_bytes_) + generators in checks/C07.py",
+                    "C06 DataTracker model and C19 AckTracker model (imported; their own ties are the C06 / C19 checks)",
                     "g++ 12 / ASan+UBSan build of the repo's working tree"]
     chk.extra["batches"] = {k: dict(v) for k, v in stats.items()}
     # how much of the workload the oracle actually judges (sample)
@@ -639,11 +655,19 @@ def run(chk):
         verd[k] = verd.get(k, 0) + 1
     chk.extra["oracle_verdicts_sample"] = verd
     chk.extra["modelled_not_proved"] = [
-        "per-flow reassembly exactness (delivered bytes = stream prefix up to the frontier) is C06's theorem about the imported "
-        "DataTracker model; here it is checked by the oracle's deliver clause and by correspondence only",
-        "per-flow state as a fold of Flow::process_packet over the sub-history routed to it (route_correct is the one-step form)",
-        "ACK tracker / SACKED_SEGMENTS limit, recovery mode, ignore_*_data, callback_not_set path: outside the model",
-        "trace_refines_reference_partial assumes no identifier collision among all packets of the capture (not only live ones)",
+        "recovery mode (Stream::enable_recovery_mode / recovery_mode_handler): outside the model",
+        "per_flow_delivery_client/server start from a flow that satisfies FlowInv (out of UNKNOWN, tracker = C06's model): "
+        "established by syn_starts_client for the client direction of a SYN-created stream, by attach_starts for both "
+        "directions of an attached stream, by flow_step_syn for a server flow whose first segment is its SYN+ACK; a direction "
+        "in which data arrived before its SYN (the SYN then resets the expected sequence number) is outside the hypothesis: "
+        "oracle deliver clause and correspondence only",
+        "the content of a flow's ACK tracker (cumulative ACK, maximal runs of SACKed positions) is C19's theorem about the "
+        "imported AckTracker model; inside the follower it is judged by the oracle's acktrack clause (C19 stateVerdict) for "
+        "acknowledgement histories a receiver emits, from the segment that completes the direction's handshake, and by "
+        "correspondence otherwise (non-conforming SACKs, attached streams whose default-constructed trackers start at 0)",
+        "follower without a new-stream callback (callback_not_set): modelled (stepX / runX), unique keys and the three limits "
+        "proved for it (callback_not_set_path); the lifetime theorems (announce_once, forget_iff, flow_is_fold, ...) are "
+        "stated for the follower with the callback installed (runX = run then)",
     ]
     corr.finalize_cov(chk)
 
